@@ -343,7 +343,7 @@ func (x *Exec) trSel(t *CSel, env *Env) Val {
 	if loc := x.selLoc(base, t.Name, env); loc != nil {
 		v := x.load(env.cur, loc)
 		if _, isSlice := under(loc.T).(*types.Slice); isSlice && len(v.S) < 300 {
-			x.sc.assert(app("wfSlice", v.S)) // every slice value in a well-typed heap is well formed
+			x.assumeHere(app("wfSlice", v.S)) // every slice value in a well-typed heap is well formed
 		}
 		if loc.Kind == lField && strings.Contains(loc.Key, ".") {
 			if si := x.so.structOf(under(base.T).(*types.Pointer).Elem()); si != nil && x.eng.ghostField(si, t.Name) != nil {
